@@ -14,7 +14,7 @@ from harness.props.c13 import ATTR_EDITS, base_ports
 class C12(Prop):
     ID = 'C12'
     N_QUICK = 260
-    N_THOROUGH = 1500
+    N_THOROUGH = 1200
     CASE_TIMEOUT = 120
     RULE = ('scripted histories of one master/slave pair in virtual time: 1-4 ports (number/boolean, read-only, '
             'disabled, custom attribute), listen or poll mode, latency 1-200 ms, bursts of remote value changes '
@@ -63,6 +63,11 @@ class C12(Prop):
             out.append({'mode': mode, 'latency': 0.01, 'fail': 'refused', 'poll': 1, 'ports': p1, 'steps': [
                 ['down'], ['rvalue', 'p1', 8], ['wait', 3], ['up'], ['wait', 12], ['check'], ['rvalue', 'p1', 9],
                 ['wait', 12], ['check']]})
+        # a value change and the removal of the port in ONE listen batch whose delivery coincides with a hub tick: the
+        # tick runs while port.remove() awaits, so the value is still reported before the port disappears
+        out.append({'mode': 'listen', 'latency': 0.1, 'fail': 'refused', 'poll': 5, 'ports': [
+            {'id': 'p1', 'type': 'number', 'value': 42, 'writable': True, 'enabled': True, 'custom': 'green'}],
+            'steps': [['rvalue', 'p1', 7], ['rremove', 'p1'], ['check']]})
         return out
 
     def gen(self, rng, tier):
